@@ -13,7 +13,7 @@ IcalPeek == "github.com/emersion/go-ical.(*lineDecoder).peek"
 Sig(e) == IF e.panic /\ e.panicin = IcalPeek /\ e.r.srv = "cal" /\ e.r.m = "PUT" /\ e.r.ctype = "obj"
           THEN "cal PUT iCalendar body with a content line that has parameters but no value: panic in " \o IcalPeek
           ELSE e.k \o " " \o e.r.srv \o " " \o e.r.m \o " level=" \o LevelName(e.r.srv, e.r.level) \o " ctype=" \o e.r.ctype \o " body=" \o e.r.body
-          \o (IF e.r.depth = "bad" THEN " depth=bad" ELSE "") \o (IF e.r.ow = "bad" THEN " overwrite=bad" ELSE "") \o (IF e.r.dest \in {"missing", "bad"} THEN " dest=" \o e.r.dest ELSE "")
+          \o (IF e.r.depth = "bad" THEN " depth=bad" ELSE "") \o (IF e.r.ow = "bad" THEN " overwrite=bad" ELSE "") \o (IF e.r.dest \in {"missing", "bad"} THEN " dest=" \o e.r.dest ELSE "") \o (IF e.r.cond # "none" THEN " cond=" \o e.r.cond ELSE "")
           \o " " \o Why(e)
 VARIABLES l, bad
 JInit == l = 1 /\ bad = 0
